@@ -143,7 +143,8 @@ fn cons_model(t: &[usize]) -> Model {
     // never used, first - in every other model; in the others the material m3 is an orphan from the start and every
     // construction there is may be in use
     if t[6] % 2 == 0 {
-        m.cons.wallcons.push(wallcons("c3", &[(uid("m3"), 0.1)]));
+        // (it has the shared material m1 on both faces: a layer is not a construction)
+        m.cons.wallcons.push(wallcons("c3", &[(uid("m1"), 0.02), (uid("m3"), 0.1), (uid("m1"), 0.02)]));
     }
     m.cons.wallcons.push(wallcons("c1", &lay(t[1])));
     m.cons.wallcons.push(wallcons("c2", &lay(t[2])));
